@@ -14,6 +14,8 @@ counterexample paths are re-derived independently by the Rust helper (`walk`).
 """
 import z3
 
+TWO_PATH_KINDS = ("inconsistent-height-at-join", "store-slot-depends-on-path")
+
 
 def effect(program, ins):
     """(need, delta_h, locals_effect) with locals_effect = ('add', k) | ('set', k) | None.
@@ -245,6 +247,9 @@ def check_function(program, fid, timeout_ms=60000, want=("c07", "c16")):
             exact = 1 if instrs[i][1] else 2
             bads.append((z3.And(onA[i], hA[i] != exact), "tailcall-leaves-stack-cells", i))
         bads.append((z3.And(onA[i], onB[i], hA[i] != hB[i]), "inconsistent-height-at-join", i))
+        if le is not None and le[0] == "add":
+            # a Store appends at position l: the slot a binding gets must not depend on the path
+            bads.append((z3.And(onA[i], onB[i], lA[i] != lB[i]), "store-slot-depends-on-path", i))
     bads.append((z3.And(onA[n], hA[n] != 1), "exit-height-not-one", n))
     bads.append((z3.And(onA[n], onB[n], hA[n] != hB[n]), "inconsistent-height-at-join", n))
     for (i, taken, t) in oobA:
@@ -276,7 +281,7 @@ def check_function(program, fid, timeout_ms=60000, want=("c07", "c16")):
                 while 0 <= i < n and guard <= n + 1:
                     guard += 1
                     pcs.append(i)
-                    if i == pc and kind != "inconsistent-height-at-join" and kind != "exit-height-not-one":
+                    if i == pc and kind not in TWO_PATH_KINDS and kind != "exit-height-not-one":
                         break
                     op = instrs[i][0]
                     if op == "JumpIf":
@@ -289,7 +294,7 @@ def check_function(program, fid, timeout_ms=60000, want=("c07", "c16")):
                         break
                     else:
                         i += 1
-                    if i == pc and kind == "inconsistent-height-at-join":
+                    if i == pc and kind in TWO_PATH_KINDS:
                         pcs.append(i)
                         break
                 return decisions, pcs
@@ -297,11 +302,12 @@ def check_function(program, fid, timeout_ms=60000, want=("c07", "c16")):
             v = {"kind": kind, "pc": pc, "decisions": dA, "pcs": pA,
                  "h": m.eval(hA[pc], model_completion=True).as_long(),
                  "l": m.eval(lA[pc], model_completion=True).as_long()}
-            if kind == "inconsistent-height-at-join":
+            if kind in TWO_PATH_KINDS:
                 dB, pB = path_of(onB, brB)
                 v["decisions_b"] = dB
                 v["pcs_b"] = pB
                 v["h_b"] = m.eval(hB[pc], model_completion=True).as_long()
+                v["l_b"] = m.eval(lB[pc], model_completion=True).as_long()
             res.violations.append(v)
             break
     return res
@@ -405,6 +411,7 @@ def check_function_blocks(program, fid, timeout_ms=60000, want=("c07", "c16")):
         lreq = []               # (pc, kind, k, strict) on l_in:  l_in + ladd  > k (strict) / >= k
         static_bad = []         # (pc, kind) violated whenever the block is reached
         tail = None
+        store_pc = None         # first Store whose slot depends on the entry locals count
         for i in range(start, end):
             need, dh, le = effs[i]
             op = instrs[i][0]
@@ -428,11 +435,13 @@ def check_function_blocks(program, fid, timeout_ms=60000, want=("c07", "c16")):
                 elif le[0] == "add":
                     if lconst is None:
                         ladd += le[1]
+                        if store_pc is None:
+                            store_pc = i
                     else:
                         lconst += le[1]
             cum += dh
         summaries.append({"dh": cum, "lconst": lconst, "ladd": ladd, "hreq": hreq, "lreq": lreq,
-                          "static": static_bad, "tail": tail})
+                          "static": static_bad, "tail": tail, "store_pc": store_pc})
 
     def copy(tag):
         on = [z3.Bool("on%s_%d" % (tag, k)) for k in range(nb + 1)]
@@ -495,6 +504,8 @@ def check_function_blocks(program, fid, timeout_ms=60000, want=("c07", "c16")):
             bads.append((z3.And(onA[k], hA[k] + BV(cum & ((1 << W) - 1)) != BV(exact)),
                          "tailcall-leaves-stack-cells", pc, k))
         bads.append((z3.And(onA[k], onB[k], hA[k] != hB[k]), "inconsistent-height-at-join", start, k))
+        if sm["store_pc"] is not None:
+            bads.append((z3.And(onA[k], onB[k], lA[k] != lB[k]), "store-slot-depends-on-path", sm["store_pc"], k))
     bads.append((z3.And(onA[EXIT], hA[EXIT] != BV(1)), "exit-height-not-one", n, EXIT))
     bads.append((z3.And(onA[EXIT], onB[EXIT], hA[EXIT] != hB[EXIT]), "inconsistent-height-at-join", n, EXIT))
     for (i, taken, t) in oobA:
@@ -555,11 +566,12 @@ def check_function_blocks(program, fid, timeout_ms=60000, want=("c07", "c16")):
             v = {"kind": kind, "pc": pc, "decisions": dA, "pcs": pA[:200],
                  "h": m.eval(hA[hk], model_completion=True).as_long(),
                  "l": m.eval(lA[hk], model_completion=True).as_long()}
-            if kind == "inconsistent-height-at-join":
+            if kind in TWO_PATH_KINDS:
                 dB, pB = decisions_of(brB, pc, pc < n)
                 v["decisions_b"] = dB
                 v["pcs_b"] = pB[:200]
                 v["h_b"] = m.eval(hB[hk], model_completion=True).as_long()
+                v["l_b"] = m.eval(lB[hk], model_completion=True).as_long()
             res.violations.append(v)
             break
     return res
